@@ -129,7 +129,8 @@ Definition valid_next (x : node) (b : block) : bool :=
   nodupk (map (fun h => [h]) (b_migr b)) &&
   forallb (fun h => match get (n_casm x) [h] with Some (_, m) => m =? 0 | None => false end) (b_migr b).
 
-(* the explicit guard of the legacy backend *)
+(* the condition under which the legacy RevertHead failed BEFORE juno commit 1b89e86; no theorem needs it
+   any more, the oracle still prints it as a diagnostic *)
 Definition guard_old (x : node) (b : block) : bool :=
   no_noop_zero_write (n_st x) (b_diff b) || (s_next (n_st x) =? 0).
 
